@@ -605,15 +605,15 @@ func (c *Ctx) freshMapFields(fi *core.FuncInfo, e ast.Expr, depth int) map[*type
 // ---- per-function analysis ---------------------------------------------------
 
 type syncFn struct {
-	e     *syncEngine
-	fi    *core.FuncInfo
-	info  *types.Info
-	sum   *syncSummary
-	flags map[types.Object]bool
-	jumps  []dset // per enclosing loop: states at break/continue statements
-	breaks []dset // per enclosing loop: states at break statements only (what leaves a `for {}`)
+	e      *syncEngine
+	fi     *core.FuncInfo
+	info   *types.Info
+	sum    *syncSummary
+	flags  map[types.Object]bool
+	jumps  []dset          // per enclosing loop: states at break/continue statements
+	breaks []dset          // per enclosing loop: states at break statements only (what leaves a `for {}`)
 	defers []*ast.CallExpr // calls deferred so far, applied (as "may have been deferred") at every exit
-	bind  map[int]types.Object
+	bind   map[int]types.Object
 	// the state before the statement being executed, and before the previous one of the same list
 	curIn, prevIn dset
 	prevStmt      ast.Stmt
